@@ -164,7 +164,8 @@ the configurations the sampler can be in):
   (ii)  the marginal of `π_L` on the spin state `α` is `⟨α| Σ_{n≤L} βⁿ (C·1 − H)ⁿ / n! |α⟩`, the diagonal of the degree-`L`
         Taylor polynomial of `e^{−β(H−C)}`, `H = isingMatrix`, `C = isingOffset = total_energy_offset`;
   (iii) the total mass of `π_L` is the trace of that polynomial (the truncated partition function `e^{βC}·Z` as `L → ∞`).
-Convergence of the chain, ergodicity and the limit `L → ∞` are NOT part of the statement (not formalised). -/
+Convergence of the chain and ergodicity are NOT part of the statement (not formalised); the limit `L → ∞` of (ii), (iii) and of the
+energy estimator is proved in `QmcProps/C01Limit.lean` (`ising_marginal_tendsto`, `ising_partition_tendsto`, `ising_energy_tendsto`). -/
 theorem ising_capstone (s : Sampler.IsingSampler) [DecidablePred (Good s.spec.ham)]
     (hv : s.spec.Valid) (hg : 0 ≤ s.spec.gamma) (hf : FieldOK s.spec) (β : ℚ) (hβ : 0 < β) (L : Nat) :
     Invariant (sseCutOn s.spec.ham β (cfgSpace s.spec.ham s.spec.nvars L))
